@@ -95,7 +95,7 @@ func (s *c08stats) add(sig, detail string, sample any) {
 func CheckC08(tier string) int {
 	start := time.Now()
 	st := &c08stats{byClient: map[string]int{}}
-	c08Thorough = tier == "thorough"
+	c08Thorough = true // the wide universe costs 4 s: both tiers use it
 	c08Tendermint(tier, st)
 	c08MPT(tier, st, "ETH")
 	c08MPT(tier, st, "BSC")
@@ -105,7 +105,7 @@ func CheckC08(tier string) int {
 		"states": len(st.byClient) + 1, "transitions": st.evals, "traces_validated_against_impl": st.evals,
 		"accepted": st.accepted, "rejected": st.rejected, "per_client": st.byClient, "samples": st.samples, "exhaustive": true,
 		"completeness_obligations": st.completenessChecked,
-		"bounds":                   "key universe {commitment, ack, clean point} x {(A,B,1),(A,B,2),(A,C,1),(a+chain.x_-,b[c]#<d>+e,1)} (thorough: + sequences 10, 11, 2^32, 2^64-1, a channel (A,D) whose clean point is above 2^40 and the reverse channel (B,A)); stored subsets at two recorded heights; claimed value {stored, another stored value, one byte off, empty, clean sequence +-1, leading-zero word}; proof {canonical, of another key, of the same key at the other root, op dropped, ops reordered, absence proof, truncated, garbage; MPT: wrong address, other account, wrong storage hash, two storage proofs, altered slot key}; proof height {recorded, unrecorded, latest+1}; delay {0, d} on both sides of the threshold",
+		"bounds":                   "key universe {commitment, ack, clean point} x {(A,B,1),(A,B,2),(A,C,1),(a+chain.x_-,b[c]#<d>+e,1)} (both tiers since 2026-09-23: + sequences 10, 11, 2^32, 2^64-1, a channel (A,D) whose clean point is above 2^40 and the reverse channel (B,A)); stored subsets at two recorded heights; claimed value {stored, another stored value, one byte off, empty, clean sequence +-1, leading-zero word}; proof {canonical, of another key, of the same key at the other root, op dropped, ops reordered, absence proof, truncated, garbage; MPT: wrong address, other account, wrong storage hash, two storage proofs, altered slot key}; proof height {recorded, unrecorded, latest+1}; delay {0, d} on both sides of the threshold",
 	}
 	fmt.Fprintf(os.Stderr, "[C08] evaluations=%d accepted=%d rejected=%d per-client=%v (%.1fs)\n", st.evals, st.accepted, st.rejected, st.byClient, time.Since(start).Seconds())
 	return report.Finish("C08", tier, start, "model_checking", cov, []string{
